@@ -349,7 +349,7 @@ class X86Model(object):
         except _Return:
             return 'rejected'
         except NotConst as e:
-            if 'NEVER' in str(e) or 'statement Raise' in str(e):
+            if 'NEVER' in str(e) or 'statement Raise' in str(e) or str(e).startswith('raise '):
                 return 'never'
             raise AnalysisError('_dis MMX/SSE mode selection for %s is outside the evaluable subset: %s' % (name, e))
         return me.opmode, me.admode, scope['swap_args']
